@@ -325,6 +325,10 @@ def run(ctx):
     for label, val in paths:
         pipeline.drive_and_validate(ctx, exe, execs, SPEC_DIR, "CodecTrace", "Trace.cfg", label=label, nbatch=16,
                                     env={"AWS_COMMON_AVX2": val}, tlc_env=tlc_env, on_fired=on_fired)
+    # the process-locale family (lib/vlib/locale8.py): a slice of the same executions in a process that called setlocale()
+    from vlib import locale8
+    locale8.rerun(ctx, exe, execs[::4] if not thorough else execs[::2], SPEC_DIR, "CodecTrace", "Trace.cfg", "codec", nbatch=8,
+                  base_env={"AWS_COMMON_AVX2": "0"}, tlc_env=tlc_env, on_fired=on_fired)
     # 4. several threads at once, each on buffers of its own (a stateless API): controlled schedules validated by
     # CodecVsTrace.tla on both paths, and a data-race scan on the ThreadSanitizer build (hidden shared state is a race)
     import base64 as _b64
